@@ -267,18 +267,16 @@ def natural_run(name, script, z0, rng, rep, ctx, batch):
     batch.append((case, impl))
 
 
-def run(ctx, rep):
-    L = 3 if ctx.tier == 'quick' else 4
-    cases = list(placement_cases(L))
-    if ctx.tier == 'quick':
-        cases = cases[::2] if len(cases) > 24000 else cases
+def _work(ctx, rep):
+    L = 3 if ctx.tier == 'quick' else 5
+    cases = [c for i, c in enumerate(placement_cases(L)) if i % ctx.parts == ctx.part]
     for i in range(0, len(cases), 5000):
         check_cases(ctx, rep, cases[i:i + 5000], 'placement')
     rng = ctx.sub_rng('hooks')
-    check_cases(ctx, rep, list(hook_cases(rng, (2000 if ctx.tier == 'quick' else 30000) * ctx.scale)), 'hooks')
+    check_cases(ctx, rep, list(hook_cases(rng, (2000 if ctx.tier == 'quick' else 200000) * ctx.scale // ctx.parts)), 'hooks')
     rng = ctx.sub_rng('natural')
     batch = []
-    for _ in range((400 if ctx.tier == 'quick' else 6000) * ctx.scale):
+    for _ in range((400 if ctx.tier == 'quick' else 40000) * ctx.scale // ctx.parts):
         name, script, z0, _ = rng.choice(NATURAL)
         natural_run(name, script, z0, rng, rep, ctx, batch)
     if not ctx.oracle_only:
@@ -286,7 +284,12 @@ def run(ctx, rep):
         for (case, impl), a in zip(batch, outs):
             if a != impl:
                 rep.disagree('solve_t (natural fault, recorded passes): model != impl', case, a, impl)
-    rep.notes.append(f'placements L={L}: {len(cases)} cases')
+    rep.notes.append(f'part {ctx.part}/{ctx.parts}: placements L={L}: {len(cases)} cases')
+
+
+def run(ctx, rep):
+    import framework
+    framework.parallel(_work, ctx, rep, parts=(1 if ctx.tier == 'quick' else ctx.workers))
 
 
 def replay(ctx, rep, case):
